@@ -654,6 +654,12 @@ def comp_lens(comps, exact):
 
 
 # ====================================================================== the check
+# translated units (tie G), regenerated from /repo on every run; the C08_* units are callees of the LR_* units
+LR_UNITS = ['LR_compareLocationValues', 'C08_equals2D', 'C08_coordEq', 'C08_coordDist', 'C08_ptSeg',
+            'LR_projectionFactor', 'LR_segLength', 'LR_segDistance', 'LR_segmentNearestMeasure',
+            'LR_compareTo', 'LR_isOnSameSegment', 'LR_isVertex', 'LR_normalize', 'LR_positiveIndex', 'LR_clampIndex']
+
+
 def par_run_lines(ctx, argv, lines, timeout, nproc=14, chunk=None):
     """ctx.run_lines over contiguous chunks in parallel (the driver / harness are pure line-in line-out filters).
     `chunk`: lines per process; `timeout` applies to each such process, so a hanging request costs one timeout and is
@@ -711,7 +717,7 @@ def run(ctx):
         'polygon validity is decided by Lib/ValidDefs.valid_geom (C05); seg_class of Lib/KernelDefs is executed beside the proved '
         'segment test and must agree', 'correspondence is sampled (generator quality bounds it)']
     ok_build = ctx.build_repo('rel')
-    ctx.translate(['LR_compareLocationValues'])
+    ctx.translate(LR_UNITS)
     ok_coq, ax = ctx.coq_build('Properties_C19')
     drv = ctx.ocaml_driver('C19')
     if not ok_build or not ctx.cxx(os.path.join(ROOT, 'harness/c19.cpp'), HEXE, 'rel'):
@@ -767,7 +773,7 @@ def run(ctx):
     # self-check of the generators: every stream must have produced its degenerate classes
     st = ctx.notes.get('stats', {})
     for need in ['node:with_intersection', 'merge:with_degree2', 'poly:with_dangle', 'poly:with_cut', 'poly:with_hole', 'poly:node-degree>=6', 'poly:nesting>=4', 'poly:sliver-face', 'shared:forward', 'shared:backward',
-                 'lr:exact', 'lr:multi', 'lr:negative', 'lr:beyond_end', 'lr:at_vertex']:
+                 'lr:exact', 'lr:multi', 'lr:negative', 'lr:beyond_end', 'lr:at_vertex', 'lr:fold-model-compared']:
         if st.get(need, 0) == 0:
             ctx.broken.append(dict(kind='generator', name='distribution ' + need, detail='no case of class %s was generated' % need))
     for c in cases[:4]:
@@ -1322,11 +1328,18 @@ def judge_lr(ctx, c, line, o, po, mres, allres, st):
         def second_best():
             ds = sorted(d2_pt_seg(p, a, b) for a, b in flat)
             return ds[1] if len(ds) > 1 else None
-        if abs(Fr(d) - mlen) > tol:
+        # the fold model of indexOfFromStart (LRFoldDefs.index_of_q: running (minDistance, ptMeasure, segmentStartMeasure)) is run
+        # on the same input: it must give the measure of the location model, and both are compared with GEOSProject_r
+        mfold = Fr(mw[5]) if len(mw) > 5 else None
+        if mfold is None or mfold != mlen:
+            ctx.broken.append(dict(kind='correspondence', name='fold model index_of_q vs location model project', detail='%s -> %s' % (ml[:800], mo)))
+        else:
+            st('lr:fold-model-compared')
+        if abs(Fr(d) - mlen) > tol or (mfold is not None and abs(Fr(d) - mfold) > tol):
             sb = second_best()
             tie = sb is not None and (sb == dmin2 if dyadic else abs(math.sqrt(float(sb)) - math.sqrt(float(dmin2))) <= 1e-9 * (1 + math.sqrt(float(dmin2))))
             if not tie:
-                bad.append(('project-equals-model', 'GEOSProject_r = %r, model %s' % (d, float(mlen)), None))
+                bad.append(('project-equals-model', 'GEOSProject_r = %r, model %s, fold model %s' % (d, float(mlen), None if mfold is None else float(mfold)), None))
         # the property clause itself: the point interpolated at the projected distance is the nearest location on the line
         o2 = ctx_interp(ctx, comps, d)
         if o2 is None:
